@@ -375,6 +375,9 @@ func vfC09FaultedHandshake(t *testing.T, res *vfResult, idx int) {
 		res.Count("dualstack_client_first_hello_lost", 1)
 	}
 	n := vfNewNet()
+	// DTLS 1.3 endpoints answer each other's retransmissions without pacing; a faulted small-MTU handshake can emit
+	// several hundred thousand datagrams. The records emitted up to the cap are still checked; a run cut by it is counted.
+	n.stormCap = 30000
 	mask.Install(n)
 	co, so := cfg.Options(nil, nil)
 	p, err := vfNewPair(n, co, so)
@@ -397,6 +400,9 @@ func vfC09FaultedHandshake(t *testing.T, res *vfResult, idx int) {
 		time.Sleep(100 * time.Millisecond)
 	} else {
 		res.Count("hs_failed", 1)
+	}
+	if n.Storm() {
+		res.Count("hs_cut_by_emission_cap", 1)
 	}
 	res.NonTrivial("hs/" + cfg.FP() + "/" + mask.String())
 	layout := "plain"
